@@ -62,7 +62,7 @@ def run_proofs(pid, tier):
     C = load_all()
     jobs = []
     for i, c in enumerate(C.all_contracts()):
-        if pid in c.props:
+        if pid in c.props and (tier == 'thorough' or c.tier == 'quick'):
             jobs.append((i, False, tier))
     for i, c in enumerate(C.LEMMAS):
         if pid in c.props:
